@@ -283,6 +283,13 @@ pub fn property() -> Property {
         prop_family("data-lines", 120_000, 1_500_000, |_| data_line().prop_map(|l| StoreCase { lines: vec![l], seed: 0 }), check),
         prop_family("text-lines", 60_000, 500_000, |_| text_line().prop_map(|l| StoreCase { lines: vec![l], seed: 0 }), check),
         prop_family(
+            "segment-lines",
+            60_000,
+            800_000,
+            |_| prop::collection::vec(super::c12::seg_line(), 1..3).prop_map(|v| StoreCase { lines: v.iter().enumerate().map(|(i, l)| format!("{} {}", 10 * (i + 1), super::c12::base_text(l))).collect(), seed: 0 }),
+            check,
+        ),
+        prop_family(
             "atom-lines",
             160_000,
             2_000_000,
@@ -299,7 +306,7 @@ pub fn property() -> Property {
     ];
     Property {
         id: "C14",
-        rule: "Stored programs built from: every ordered pair (thorough: triple) of token-class representatives typed with and without a separating blank (exhaustive); numerals in many spellings (leading dot, leading/trailing zeros, up to 400 digits, tiny fractions, spaced digits) in 10 contexts incl. directly after an identifier; DATA statements with quoted / bare / numeric / empty / quote-containing / inf-nan-exponent items, odd spacing and trailing statements; REM tails and strings with arbitrary Unicode; random atom lines; structured programs from the grammar rendered with random spacing/case; the repo's two sample programs. Oracle: LIST of the original == LIST after typing that listing into a fresh interpreter (every listed line must be accepted), then RUN of both (same seed, reply 1 to INPUTs, 3000-turn budget) gives identical output records and outcome, and RESTORE + repeated READ into a string variable yields the identical DATA item sequence. Non-trivial: the listing differs from the typed text and contains DATA, a decimal point or >= 3 tokens; distinct by listing.",
+        rule: "Stored programs built from: every ordered pair (thorough: triple) of token-class representatives typed with and without a separating blank (exhaustive); numerals in many spellings (leading dot, leading/trailing zeros, up to 400 digits, tiny fractions, spaced digits) in 10 contexts incl. directly after an identifier; DATA statements with quoted / bare / numeric / empty / quote-containing / inf-nan-exponent items, odd spacing and trailing statements; REM tails and strings with arbitrary Unicode; random atom lines; the token-dense segment lines of C12 (identifiers over every letter, tight digit-letter-sign-digit runs such as 5e-3, spaced operators, DATA chunks, REM tails); structured programs from the grammar rendered with random spacing/case; the repo's two sample programs. Oracle: LIST of the original == LIST after typing that listing into a fresh interpreter (every listed line must be accepted), then RUN of both (same seed, reply 1 to INPUTs, 3000-turn budget) gives identical output records and outcome, and RESTORE + repeated READ into a string variable yields the identical DATA item sequence. Non-trivial: the listing differs from the typed text and contains DATA, a decimal point or >= 3 tokens; distinct by listing.",
         assumptions: vec!["behaviour under RUN is compared up to a 3000-turn budget"],
         fuzz: Some(FuzzSpec { target: "c14_roundtrip", runs: 300_000, max_len: 512, verdict: crate::fuzz::c14_verdict }),
         families,
